@@ -28,6 +28,9 @@ MIN_NONTRIVIAL = {"quick": 500, "thorough": 8000}
 WALL_BUDGET = {"quick": 200, "thorough": 2400}
 
 
+KF_OUTLIVES = "epr-request:outstanding-after-its-subroutine-returned"
+
+
 def arr(addr, n):
     return f"array {n} @{addr}\n"
 
@@ -177,6 +180,16 @@ def scenarios():
               arr(0, 19) + "recv_epr(1,0) C0 0\n" + arr(2, 10) + "recv_epr(1,0) C0 2\n" + "wait_all @0[0:10]\nwait_all @2[0:10]\n"}],
               "requests": [req(0, "recv", "M", 1, 0), req(0, "recv", "M", 1, 2)],
               "streams": [{"key": [1, 0, "recv"], "responses": M(2)}], "array_prefix_only": True})
+    # 20. a request that is still outstanding when its subroutine returns; a later subroutine of the application posts another
+    #     request on the same socket and waits for both
+    for tp in ("M", "K"):
+        first = (arr(0, 10) + "recv_epr(1,0) C0 0\n") if tp == "M" else (arr(0, 10) + arr(1, 1) + stores(1, [0]) + "recv_epr(1,0) 1 0\n")
+        second = ((arr(2, 10) + "recv_epr(1,0) C0 2\n") if tp == "M" else (arr(2, 10) + arr(3, 1) + stores(3, [1]) + "recv_epr(1,0) 3 2\n")) + \
+            "wait_all @0[0:10]\nwait_all @2[0:10]\n"
+        S.append({"name": "request-outlives-its-subroutine-" + tp, "outlives": True, "apps": [
+            {"app": 0, "unit": 2, "text": first}, {"app": 0, "unit": 2, "text": second, "after_done": 0}],
+            "requests": [req(0, "recv", tp, 1, 0, [0] if tp == "K" else None), req(0, "recv", tp, 1, 2, [1] if tp == "K" else None)],
+            "streams": [{"key": [1, 0, "recv"], "responses": (M(2) if tp == "M" else K(2, [1, 2]))}]})
     return S
 
 
@@ -317,9 +330,10 @@ def run_case(ctx, case):
         if nontrivial:
             ctx.nontrivial_hashes.add(hv)
         if viol is not None:
+            key = KF_OUTLIVES if sc.get("outlives") else None
             ctx.fail({"kind": "replay", "scenario": case["scenario"], "inline": case.get("inline"), "name": sc["name"], "picks": list(picks),
                       "events": [list(e) for e in (run.events if run is not None else [])]},
-                     f"scenario {sc['name']}, schedule {[list(e) for e in (run.events if run is not None else [])]}: {viol}")
+                     f"scenario {sc['name']}, schedule {[list(e) for e in (run.events if run is not None else [])]}: {viol}", key=key)
 
     if case["kind"] == "generated":
         ctx.count("generated_scenarios")
